@@ -149,5 +149,9 @@ def flatten(mesh : Mesh, dim : int = None) -> Mesh:
             variances.append(np.var([p[i] for p in mesh.vertices]))
         dim = np.argmin(variances)
     for i in mesh.id_vertices:
-        mesh.vertices[i][dim] = 0.
+        # rebind instead of an item assignment into the stored vector: an in-place update would also flatten every mesh / array
+        # sharing this vector's memory (the mesh a boundary was extracted from, the caller's points)
+        Pi = np.array(mesh.vertices[i])
+        Pi[dim] = 0.
+        mesh.vertices[i] = Vec(Pi)
     return mesh
